@@ -24,9 +24,31 @@ from npvc import theory as TH
 INVARIANTS = {}       # (target, ordinal) -> dict(over=<text of iteration expr / while test>, inv=fn(view) -> z3 Bool, ghosts=...)
 
 
+def _entry(target, ordinal, over, fn):
+  e = INVARIANTS.setdefault((target, ordinal), dict(over=over, inv=None))
+  e.setdefault('module', getattr(fn, '__module__', '?'))
+  return e
+
+
+def find_loop(target, over):
+  """ordinal of the loop of `target` whose iteration expression / while test has the text `over` in the CURRENT tree; a key that
+  can never bind when the function or the loop is gone (the check then reports the sidecar as unbound: undecided, never an error)"""
+  from npvc.source import Program, SourceError
+  try:
+    fn = Program().func(target)
+  except SourceError:
+    return ('missing-function', over)
+  loops_ = [n for n in ast.walk(fn) if isinstance(n, (ast.For, ast.While))]
+  loops_.sort(key=lambda n: (n.lineno, n.col_offset))
+  for k, n in enumerate(loops_):
+    if ast.unparse(n.iter if isinstance(n, ast.For) else n.test) == over:
+      return k
+  return ('missing-loop', over)
+
+
 def invariant(target, ordinal, over):
   def deco(fn):
-    INVARIANTS.setdefault((target, ordinal), dict(over=over, inv=None))['inv'] = fn
+    _entry(target, ordinal, over, fn)['inv'] = fn
     return fn
   return deco
 
@@ -42,7 +64,7 @@ def define_on_entry(target, ordinal, over, text):
   """ghost DEFINITION introduced when the loop is entered (e.g. `is_initial(A_old)` names the matrix the loop starts from);
   assumed on entry only -- never at the havoc head"""
   def deco(fn):
-    e = INVARIANTS.setdefault((target, ordinal), dict(over=over, inv=None))
+    e = _entry(target, ordinal, over, fn)
     e['entry_def'] = fn
     e['entry_def_text'] = text
     return fn
@@ -53,7 +75,7 @@ def local_invariant(target, ordinal, over):
   """fact about variables that the loop body binds (e.g. the best checkpoint): proved at the end of the symbolic iteration on
   every path where they are bound, and then assumed for their value after the loop"""
   def deco(fn):
-    INVARIANTS.setdefault((target, ordinal), dict(over=over, inv=None))['local'] = fn
+    _entry(target, ordinal, over, fn)['local'] = fn
     return fn
   return deco
 
@@ -61,7 +83,7 @@ def local_invariant(target, ordinal, over):
 def assume_at_head(target, ordinal, over, text):
   """ghost hypothesis of the property (not proved; listed as an assumption): assumed at the loop head and on entry"""
   def deco(fn):
-    e = INVARIANTS.setdefault((target, ordinal), dict(over=over, inv=None))
+    e = _entry(target, ordinal, over, fn)
     e['assume'] = fn
     e['assume_text'] = text
     return fn
@@ -71,7 +93,7 @@ def assume_at_head(target, ordinal, over, text):
 def at_break(target, ordinal, over):
   """assertion that must hold whenever the loop is left through `break` (proved on every break path)"""
   def deco(fn):
-    INVARIANTS.setdefault((target, ordinal), dict(over=over, inv=None))['at_break'] = fn
+    _entry(target, ordinal, over, fn)['at_break'] = fn
     return fn
   return deco
 
@@ -329,6 +351,8 @@ def loop_hook(ex, st, p, module):
   is_for = isinstance(st, ast.For)
   over_text = ast.unparse(st.iter if is_for else st.test)
   inv = INVARIANTS.get((target, ordinal))
+  if inv is not None:
+    ex.sidecars_used.add((target, ordinal))
   if inv is not None and inv['over'] != over_text:
     raise Unsupported('loop %d of %s now iterates over `%s`, the sidecar invariant was written for `%s`' % (ordinal, target, over_text, inv['over']))
 
@@ -426,7 +450,9 @@ def view(ex, p):
     def __getattr__(self, k):
       if k in p.env:
         return unwrap(p.env[k], p)
-      raise AttributeError(k)
+      # a sidecar invariant written for the body as it was names a local the current body does not have (renamed / removed): the
+      # invariant no longer binds -- the loop is undecided, never refuted and never an error
+      raise Unsupported('the sidecar invariant of this loop refers to the local `%s`, which the current body does not define' % k)
 
     def has(self, k):
       return k in p.env
